@@ -4,6 +4,7 @@ import math
 import os
 
 from perception_eval.common.label import AutowareLabel
+from perception_eval.common.label import Label
 from perception_eval.evaluation.matching import MatchingMode
 from perception_eval.evaluation.metrics.tracking.clear import CLEAR
 from perception_eval.evaluation.metrics.tracking.tracking_metrics_score import TrackingMetricsScore
@@ -38,16 +39,25 @@ def _obj(p, uuid, label="CAR"):
     return G.mk3d(dict(x=p[0], y=p[1], z=0.0, yaw=0.0, size=[2.0, 4.0, 1.5], label=label, uuid=uuid, score=0.9))
 
 
-def R(e, g, near, re=None, rg=None, elabel="CAR", glabel="CAR"):
-    """pooled result object for pair (e,g,near); uuids optionally renamed (geometry/score keyed by the original pair)."""
+def R(e, g, near, re=None, rg=None, elabel="CAR", glabel="CAR", raw=None):
+    """pooled result object for pair (e,g,near); uuids optionally renamed (geometry/score keyed by the original pair); raw = the
+    dataset / message spelling the labels were converted from (same evaluated label)."""
     en = (re or {}).get(e, e)
     gn = None if g is None else (rg or {}).get(g, g)
-    k = (e, g, near, en, gn, elabel, glabel)
+    k = (e, g, near, en, gn, elabel, glabel, raw)
     if k not in _POOL:
         eo = _obj((0.0, 0.0), en, elabel)
         go = None if g is None else _obj(((SC[(e, g)] if near else 5.0 + SC[(e, g)]), 0.0), gn, glabel)
+        if raw is not None:
+            eo.semantic_label = Label(eo.semantic_label.label, raw[0], list(eo.semantic_label.attributes))
+            if go is not None:
+                go.semantic_label = Label(go.semantic_label.label, raw[1], list(go.semantic_label.attributes))
         _POOL[k] = DynamicObjectWithPerceptionResult(eo, go)
     return _POOL[k]
+
+
+# spellings that LabelConverter maps to CAR (merge_similar_labels adds truck/bus/trailer); the evaluated label is the same
+RAW_NAMES = [("car", "car"), ("vehicle.car", "car"), ("Car", "vehicle.car"), ("truck", "vehicle.truck")]
 
 
 def frames_over(ests):
@@ -83,6 +93,8 @@ def units(tier, seed):
     u.append(dict(kind="extras"))
     u.append(dict(kind="laws"))
     u.append(dict(kind="long"))
+    for i in range(0, len(FR2), 7):
+        u.append(dict(kind="rawname", lo=i, hi=min(len(FR2), i + 7)))
     for i in range(len(FR2)):
         u.append(dict(kind="sum", first=i))
     for pat in range(4):
@@ -258,6 +270,12 @@ def run_unit(unit, acc):
                 h = [()] + [FR2[(start + stride * i) % len(FR2)] for i in range(30)]
                 for gcount in (3, 40):
                     check_case(dict(kind="hist", hist=[list(map(list, f)) for f in h], G=gcount, mode="CENTERDISTANCE"), acc)
+    elif k == "rawname":
+        for p in FR2[unit["lo"]:unit["hi"]]:
+            for cur in FR2:
+                for nxt in FR2[::3]:
+                    for rot in range(3):
+                        check_case(dict(kind="rawname", hist=[list(map(list, p)), list(map(list, cur)), list(map(list, nxt))], rot=rot), acc)
     elif k == "laws":
         for n in range(1, 7):
             check_case(dict(kind="law", law="perfect", n=n), acc)
@@ -301,6 +319,19 @@ def check_case(case, acc):
         if (c.tp, c.id_switch, round(c.tp_matching_score, 9)) != (c0.tp, c0.id_switch, round(c0.tp_matching_score, 9)) or c.fp != c0.fp + n_unk:
             bad("extras", "adding %s results changes the accounting: %s -> %s" % (case["extra"], _results(c0), _results(c)))
         acc.state(("extras", case["extra"], hist[0], hist[1]), nontrivial=True)
+    elif k == "rawname":
+        # the same tracks, spelled differently from frame to frame in the source data: the evaluated labels are identical
+        hist = [tuple(tuple(r) for r in f) for f in case["hist"]]
+        acc.exec(2)
+        c0 = run_clear(hist, 3, MatchingMode.CENTERDISTANCE, 1.0)
+        frames = [[R(e, g, n, raw=RAW_NAMES[(fi + case["rot"] + (ri if case["rot"] == 2 else 0)) % len(RAW_NAMES)]) for ri, (e, g, n) in enumerate(f)]
+                  for fi, f in enumerate(hist)]
+        c = CLEAR(frames, 3, [CAR], MatchingMode.CENTERDISTANCE, [1.0])
+        acc.compared()
+        if _results(c) != _results(c0):
+            bad("raw-name-dependence", "objects of the same evaluated label CAR whose source spelling differs between frames score %s, "
+                "with one spelling %s" % (_results(c), _results(c0)))
+        acc.state(("rawname", hist, case["rot"]), nontrivial=c0.id_switch > 0 or c0.tp > 0)
     elif k == "law":
         n = case["n"]
         both = (("a", "x", True), ("b", "y", True))
